@@ -66,6 +66,9 @@ flag("fixD4f", "src/crypto/aes_kw.rs", r"pub fn unwrap\(key: &\[u8\], data: &\[u
      "1 iff aes_kw::unwrap rejects data shorter than IV_LEN before subtracting")
 flag("fixEcdhLen", "src/crypto/ecdh.rs", r"ensure!\(\s*encrypted_key_len >= encrypted_session_key\.len\(\)",
      "1 iff ecdh::derive_session_key checks encrypted_key_len >= encrypted_session_key.len() first")
+flag("fixD4h", "src/composed/message/reader/literal.rs",
+     r"fn fill_inner\(&mut self\) -> io::Result<\(\)> \{\s*if matches!\(self, Self::Error\) \{\s*return Err",
+     "1 iff LiteralDataReader::fill_inner returns Err in the Error state before calling is_done()")
 flag("fixD4g", "src/armor/reader.rs", r"Part::Temp => panic!", "1 iff Dearmor::read no longer panics in Part::Temp", absent=True)
 
 derived("""
